@@ -414,3 +414,109 @@ func axisName(a rsmt2d.Axis) string {
 	}
 	return "col"
 }
+
+// ReadSome performs n seeded random reads through the accessor and compares each with the reference.
+// lowerFirst makes the first read an axis of the lower half (the read that opens the Q4 file lazily).
+func ReadSome(ctx context.Context, acc eds.AccessorStreamer, ref *Ref, rnd *rand.Rand, n int, lowerFirst bool) (out []Mismatch, reads int) {
+	bad := func(path, f string, a ...any) {
+		if len(out) < 8 {
+			out = append(out, Mismatch{Path: path, Detail: fmt.Sprintf(f, a...)})
+		}
+	}
+	axis := func(ax rsmt2d.Axis, idx int) {
+		name := fmt.Sprintf("AxisHalf(%s,%d)", axisName(ax), idx)
+		half, err := acc.AxisHalf(ctx, ax, idx)
+		reads++
+		if err != nil {
+			bad(name, "error %v", err)
+			return
+		}
+		ext, err := half.Extended()
+		if err != nil || len(ext) != ref.W {
+			bad(name, "extending: %v (len %d)", err, len(ext))
+			return
+		}
+		for k := 0; k < ref.W; k++ {
+			want := ref.Cell(idx, k)
+			if ax == rsmt2d.Col {
+				want = ref.Cell(k, idx)
+			}
+			if !bytes.Equal(ext[k].ToBytes(), want) {
+				bad(name, "share %d differs (parityHalf=%v)", k, half.IsParity)
+				return
+			}
+		}
+	}
+	sample := func(r, c int) {
+		name := fmt.Sprintf("Sample(%d,%d)", r, c)
+		s, err := acc.Sample(ctx, shwap.SampleCoords{Row: r, Col: c})
+		reads++
+		if err != nil {
+			bad(name, "error %v", err)
+			return
+		}
+		if !bytes.Equal(s.Share.ToBytes(), ref.Cell(r, c)) {
+			bad(name, "share differs")
+			return
+		}
+		if err := s.Verify(ref.Roots, r, c); err != nil {
+			bad(name, "proof does not verify: %v", err)
+		}
+	}
+	for i := 0; i < n && len(out) < 8; i++ {
+		k := rnd.Intn(10)
+		if i == 0 && lowerFirst {
+			k = 0
+		}
+		switch {
+		case k == 0: // lower-half row / right-half column: served from Q4 when it is bound
+			if rnd.Intn(2) == 0 {
+				axis(rsmt2d.Row, ref.OdsW+rnd.Intn(ref.OdsW))
+			} else {
+				axis(rsmt2d.Col, ref.OdsW+rnd.Intn(ref.OdsW))
+			}
+		case k == 1:
+			axis(rsmt2d.Axis(rnd.Intn(2)), rnd.Intn(ref.OdsW))
+		case k <= 5:
+			sample(rnd.Intn(ref.W), rnd.Intn(ref.W))
+		case k == 6 && len(ref.NS) > 0:
+			ns := ref.NS[rnd.Intn(len(ref.NS))]
+			row := rnd.Intn(ref.OdsW)
+			name := fmt.Sprintf("RowNamespaceData(%d)", row)
+			want, werr := ref.Acc.RowNamespaceData(ctx, ns, row)
+			got, gerr := acc.RowNamespaceData(ctx, ns, row)
+			reads++
+			if (werr == nil) != (gerr == nil) {
+				bad(name, "error mismatch: got %v, reference %v", gerr, werr)
+			} else if werr == nil && !sharesEqual(got.Shares, want.Shares) {
+				bad(name, "shares differ")
+			}
+		case k == 7:
+			roots, err := acc.AxisRoots(ctx)
+			reads++
+			if err != nil || !roots.Equals(ref.Roots) {
+				bad("AxisRoots", "err=%v / differ", err)
+			}
+			dh, err := acc.DataHash(ctx)
+			if err != nil || !bytes.Equal(dh, ref.Hash) {
+				bad("DataHash", "err=%v / differs", err)
+			}
+		case k == 8:
+			shs, err := acc.Shares(ctx)
+			reads++
+			if err != nil || len(shs) != ref.OdsW*ref.OdsW {
+				bad("Shares", "err=%v len=%d", err, len(shs))
+				break
+			}
+			for j, s := range shs {
+				if !bytes.Equal(s.ToBytes(), ref.Cell(j/ref.OdsW, j%ref.OdsW)) {
+					bad("Shares", "share %d differs", j)
+					break
+				}
+			}
+		default:
+			sample(ref.OdsW+rnd.Intn(ref.OdsW), rnd.Intn(ref.W)) // lower half: Q4 / Q3
+		}
+	}
+	return out, reads
+}
